@@ -11,7 +11,11 @@ if [ -f $D/demo.py ]; then
   (cd /repo && PYTHONPATH=/repo timeout 300 /venv/bin/python $D/demo.py >/dev/null 2>&1); b=$?
   echo "demo: with-change exit=$a  without exit=$b"
 fi
-/verif/tools/baseline.sh $W > $W.base; /verif/tools/baseline.sh /repo > $W.base0
+/verif/tools/baseline.sh $W > $W.base
+# the unmodified tree's list is computed once per /repo HEAD (+ working-tree state)
+BK=/var/tmp/base0.$(git -C /repo rev-parse --short HEAD).$(git -C /repo status --porcelain | md5sum | cut -c1-8).txt
+if [ ! -s $BK ]; then /verif/tools/baseline.sh /repo > $BK.tmp.$$ && mv $BK.tmp.$$ $BK; fi
+cp $BK $W.base0
 if ! diff -q $W.base0 $W.base >/dev/null; then
   # timing-sensitive tests (test_curio under load): re-run only the tests that differ, on both trees
   ids=$(diff $W.base0 $W.base | grep -E '^[<>]' | awk '{print $3}' | sort -u)
